@@ -136,6 +136,9 @@ func (h *histRun) buildNamed(name string, i int, op *opSpec, pc procCfg, hook fu
 	h.w.written = map[string]string{}
 	bo := buildOpts{Label: op.Label, Always: op.Always, DryRun: op.Dry, Args: h.p.args(), PreferIndex: op.Index, SecondRun: op.Twice,
 		LoadOnly: op.Op == "load-only", GC: op.Op == "gc"}
+	if op.DryNil {
+		bo.DryThenNil = 1 + op.N%2
+	}
 	res := h.w.process(name, pc, bo, hook)
 	h.w.ctx.Sim(res.Sim, simcheck.ScenarioHash(h.p), pc.Strategy)
 	return res
